@@ -42,6 +42,7 @@ type Case struct {
 	Procs     int         `json:"procs"`
 	Perturb   uint64      `json:"perturb"` // seed of the schedule perturbation, 0 = none
 	SkipSort  bool        `json:"skip_sort"`
+	PauseUs   int         `json:"pause_us"` // writers pause this long between bulks (lets the maintenance loop tick)
 }
 
 func noise(seed, n int) string {
@@ -61,7 +62,7 @@ func genCase(t *rapid.T) Case {
 	nr := rapid.IntRange(1, 4).Draw(t, "readers")
 	n := 0
 	for w := 0; w < nw; w++ {
-		nb := rapid.IntRange(5, 40).Draw(t, "nbulks")
+		nb := rapid.IntRange(5, 120).Draw(t, "nbulks")
 		var bulks [][]int
 		for b := 0; b < nb; b++ {
 			nd := rapid.IntRange(1, 8).Draw(t, "ndocs")
@@ -104,6 +105,7 @@ func genCase(t *rapid.T) Case {
 	c.Procs = rapid.SampledFrom([]int{16, 2, 4}).Draw(t, "procs")
 	c.Perturb = rapid.Uint64Range(0, 1<<30).Draw(t, "perturb")
 	c.SkipSort = rapid.Bool().Draw(t, "skipsort")
+	c.PauseUs = rapid.SampledFrom([]int{0, 200, 1000}).Draw(t, "pause")
 	return c
 }
 
@@ -186,6 +188,9 @@ func runCase(c Case) (evid.Result, error) {
 				}
 				for _, di := range b {
 					state[di].Store(2)
+				}
+				if c.PauseUs > 0 {
+					time.Sleep(time.Duration(c.PauseUs) * time.Microsecond)
 				}
 			}
 		}()
